@@ -98,5 +98,82 @@ func genSpecials(r *Rng) []special {
 		return sb.String()
 	}
 	out = append(out, special{Name: "oversized-function-edit", Family: "oversized", P: big(1), Q: big(2)})
+	// 5. nested counted loops, the two loop variables exchanged in the body
+	nest := func(x, y string) string {
+		return specialHeader() + fmt.Sprintf(`func Special(a int, b int, s string, xs []int) int {
+	t := 0
+	for i := 0; i < %d; i++ {
+		for j := 0; j < %d; j++ {
+			t += %s*10 + %s
+		}
+	}
+	return t + a
+}
+`, 2+k1, 3+k2, x, y)
+	}
+	out = append(out, special{Name: "nested-loop-variables-exchanged", Family: "nested-iv", P: nest("i", "j"), Q: nest("j", "i")})
+	// 6. sibling loops with the same start and step, a use of the first variable replaced by the second's bound
+	sib := func(useFirst bool) string {
+		u := "i"
+		if !useFirst {
+			u = "k"
+		}
+		return specialHeader() + fmt.Sprintf(`func Special(a int, b int, s string, xs []int) int {
+	t := 0
+	for i := 0; i < %d; i++ {
+		for k := 0; k < 2; k++ {
+			t += %s + 1
+		}
+	}
+	return t + b
+}
+`, 3+k1, u)
+	}
+	out = append(out, special{Name: "inner-outer-variable-swap", Family: "nested-iv", P: sib(true), Q: sib(false)})
+	// 7. deliberately invalid refactoring: len() of a NAMED map type hoisted out of a loop that shrinks the map
+	hoist := func(hoisted bool, typ, mk string) string {
+		pre, use := "", "len(m)"
+		if hoisted {
+			pre, use = "\tn := len(m)\n", "n"
+		}
+		return specialHeader() + fmt.Sprintf(`%s
+func Special(a int, b int, s string, xs []int) int {
+	m := %s
+	for i := 0; i < 4; i++ {
+		m[i] = true
+	}
+	t := 0
+%s	for i := 0; i < 4; i++ {
+		if i%%2 == 0 {
+			delete(m, i)
+		}
+		t += %s
+	}
+	return t + a
+}
+`, typ, mk, pre, use)
+	}
+	out = append(out, special{Name: "len-of-named-map-hoisted", Family: "invalid-hoist", P: hoist(false, "type Set map[int]bool\n", "Set{}"), Q: hoist(true, "type Set map[int]bool\n", "Set{}")})
+	out = append(out, special{Name: "len-of-map-hoisted", Family: "invalid-hoist", P: hoist(false, "", "map[int]bool{}"), Q: hoist(true, "", "map[int]bool{}")})
+	// 8. cap/len of a named channel type hoisted out of a loop that fills it
+	chq := func(hoisted bool) string {
+		pre, use := "", "len(q)"
+		if hoisted {
+			pre, use = "\tn := len(q)\n", "n"
+		}
+		return specialHeader() + fmt.Sprintf(`type Queue chan int
+
+func Special(a int, b int, s string, xs []int) int {
+	q := make(Queue, 8)
+	t := 0
+%s	for i := 0; i < 5; i++ {
+		q <- i
+		t += %s
+	}
+	return t + b
+}
+`, pre, use)
+	}
+	out = append(out, special{Name: "len-of-named-chan-hoisted", Family: "invalid-hoist", P: chq(false), Q: chq(true)})
 	return out
 }
